@@ -160,7 +160,8 @@ class Session:
         combos = [()]
         hole_list = []
         if holes:
-            hole_list = list(holes.items())
+            # only the holes that actually occur in this obligation matter
+            hole_list = [(h, c) for h, c in holes.items() if term_contains(goal, h) or any(term_contains(x, h) for x in hyps)]
             combos = list(itertools.product(*[c for _, c in hole_list]))
             if not combos:
                 return self._record(oid, "failed", function=function, what=what, backend="z3",
